@@ -16,7 +16,9 @@ EXPLANATION = (
     "pseudo-element list contains the databases' marker tokens, UCLCHEM's keyword list contains every key of reactant2type plus NAN; R3 arity: "
     "every destructuring of a split line has as many targets as the format has fields and the starred part is consumed by slices of matching "
     "total length; R4 fixed widths: KIDA slices are contiguous [:34], [34:90], [90:] with 34 = 3*11+1, 56 = 5*11+1 as naunet's own KIDA writer "
-    "lays them out; Leeds label/width tables have equal length and sum to the 125-column record, the cursor advances once per field; R5 every "
+    "lays them out (decided on the constant bounds after slices of slices are composed); every attribute of a Leeds record is decoded from its published columns of the "
+    "125-column record, whatever the way the line is cut (parsers are read in their folded form, pymodel.folded: helpers put back, class-level tables in place, static loops "
+    "over zip / enumerate / accumulate of literal tables unrolled); R5 every "
     "numeric attribute is read from the field position the format's layout (DESIGN Appendix C) gives it and converted with int/float; R6 code "
     "tables map each external code to the ReactionType value the format definition gives it (Appendix B); R7 temperature-window fields are decoded as written "
     "(shared with C06.R4: KROME operator tokens / d-exponents / no-bound spellings or a number extractor that admits every exponent spelling; float(field) "
@@ -50,6 +52,14 @@ LEEDS_LABELS = ["idx", "reac", "prod", "a", "b", "c", "lt", "ht", "type"]
 LEEDS_WIDTHS = [5, 30, 50, 8, 9, 10, 5, 5, 3]
 LEEDS_ATTR = {"idx": "idxfromfile", "reac": "reactants", "prod": "products", "a": "alpha", "b": "beta", "c": "gamma", "lt": "temp_min", "ht": "temp_max", "type": "rtype"}
 MARKERS = {"CR", "CRP", "PHOTON", "Photon", "CRPHOT"}
+KEEP = ("_create_species",)        # helpers the rules treat as primitives when a parser is read in its folded form
+
+
+def _parser(pkg, cls):
+    """_parse_string of a format class in the form the rules read (pymodel.folded): the private helpers it was split into put back,
+    class-level tables written in place, static loops over literal tables unrolled, table-driven setattr / getattr resolved"""
+    pkg.method(cls, "_parse_string")           # the anchor itself must exist
+    return pkg.folded(cls, "_parse_string", keep=KEEP)
 
 
 def check(ctx):
@@ -100,7 +110,7 @@ def _r10(ctx, pkg):
                           f"`.{c.func.attr}({lit!r})` removes any run of the CHARACTERS {sorted(set(lit))}, not the prefix {lit!r}: text that merely starts with one of these letters "
                           "loses its beginning (a KROME column list `r,r,p,...` after `@format:` becomes `,r,p,...`)",
                           expected="replace(prefix, '', 1) / slicing / removeprefix", found=ast.unparse(c)[:80])
-    fn = pkg.cls("KROMEReaction").methods.get("preprocessing")
+    fn = pkg.folded("KROMEReaction", "preprocessing") if pkg.cls("KROMEReaction").methods.get("preprocessing") else None      # class-level directive constants in place
     st = [a for a in ast.walk(fn) if isinstance(a, ast.Assign) and any(isinstance(t, ast.Attribute) and t.attr == "reacformat" for t in a.targets)] if fn else []
     KF = "naunet/reactions/kromereaction.py"
     if len(st) != 1:
@@ -123,12 +133,32 @@ def _r1(ctx, pkg):
     fn = pkg.func(NET, "_reaction_factory")
     ctx.saw(NET, "_reaction_factory")
     fl = Flow(fn, NET)
-    made = [f for f in fl.facts if f.kind == "return" and f.value and f.value[0] == "call" and any(k == "react_string" for k, _ in f.value[3])]
+    # the construction by role: a returned call of the class looked up in the format table (or any call given `react_string=`),
+    # with the line as its one argument -- positional or keyword; a conditional return is one return per arm
+    from types import SimpleNamespace
+
+    def arms(v, guards):
+        v = simp(v)
+        if v[0] in ("phi", "ifexp"):
+            return arms(v[2], tuple(guards) + ((v[1], True),)) + arms(v[3], tuple(guards) + ((v[1], False),))
+        return [(v, tuple(guards))]
+
+    def line_of(v):
+        if v[0] != "call":
+            return None
+        kws = dict(v[3])
+        if "react_string" in kws:
+            return kws["react_string"]
+        if len(v[2]) == 1 and not v[3] and any(x == ("global", "supported_reaction_class") for x in walk(v[1])):
+            return v[2][0]
+        return None
+    made = [SimpleNamespace(value=v, guards=g, line=f.line, arg=simp(line_of(v))) for f in fl.facts if f.kind == "return" and f.value
+            for v, g in arms(f.value, f.guards) if line_of(v) is not None]
     if len(made) != 1:
         ctx.unrec("R1", "_reaction_factory", (NET, fn.lineno), f"expected one `return initializer(react_string=..)`, found {len(made)}")
     else:
         f = made[0]
-        arg = simp(dict(f.value[3])["react_string"])
+        arg = f.arg
         stripped = False
         for g, pol in f.guards:
             for x in walk(simp(g)):
@@ -151,12 +181,20 @@ def _r1(ctx, pkg):
         pre = any(isinstance(x, tuple) and len(x) >= 3 and x[0] == "meth" and x[2] == "preprocessing" for x in walk(arg))
         ctx.check(pre, "R1", "_reaction_factory:preprocessing", (NET, f.line), "the line handed to the parser is the class's preprocessing of the raw line")
     # base preprocessing is the identity
-    base = pkg.method("Reaction", "preprocessing")
+    pkg.method("Reaction", "preprocessing")
+    base = pkg.folded("Reaction", "preprocessing")
     ctx.saw(R, "Reaction.preprocessing")
     bfl = Flow(base, R)
     rets = [f for f in bfl.facts if f.kind == "return"]
-    ident = bool(rets) and all(simp(f.value) in (("param", "line"), ("meth", ("param", "line"), "strip", (), ())) and not f.guards for f in rets)
-    ctx.check(ident, "R1", "Reaction.preprocessing:identity", (R, base.lineno),
+    LINE_ = ("param", base.args.args[-1].arg) if base.args.args else ("param", "line")
+    same = lambda v: v in (LINE_, ("meth", LINE_, "strip", (), ()), ("meth", LINE_, "rstrip", (), ()), ("call", ("global", "str"), (LINE_,), ()))
+    ident = bool(rets) and all(same(simp(f.value)) for f in rets)         # every path returns the line (whatever the tests on the way)
+    drops = any(simp(f.value)[0] == "const" for f in rets) or not rets
+    if not ident and not drops:
+        ctx.unrec("R1", "Reaction.preprocessing:identity", (R, base.lineno), "cannot see that the base pre-processing returns the line it is given: "
+                  + "; ".join(show(simp(f.value))[:60] for f in rets)[:160])
+    else:
+      ctx.check(ident, "R1", "Reaction.preprocessing:identity", (R, base.lineno),
               "the base pre-processing keeps every line" if ident else
               "the base pre-processing drops lines by content: data lines of formats that inherit it (UCLCHEM/Leeds/native rows beginning with the surface "
               "prefix '#', KIDA rows) vanish from the network",
@@ -165,7 +203,8 @@ def _r1(ctx, pkg):
     over = sorted(c for c in pkg.subclasses("Reaction") if "preprocessing" in pkg.classes[c].methods)
     ctx.check(over == ["KROMEReaction"], "R1", "preprocessing overrides", (R, base.lineno),
               "only KROME (whose syntax defines comment and directive lines) filters lines", expected="['KROMEReaction']", found=str(over))
-    k = pkg.method("KROMEReaction", "preprocessing")
+    pkg.method("KROMEReaction", "preprocessing")
+    k = pkg.folded("KROMEReaction", "preprocessing")          # class-level prefix tables written in place, loops over them unrolled
     kfl = Flow(k, "naunet/reactions/kromereaction.py")
     # by paths, whatever the arrangement of the returns: exactly one path keeps the line (returns line.strip()); it is the path on
     # which the line starts with none of the comment / directive prefixes; every other path returns ""
@@ -200,13 +239,19 @@ def _r1(ctx, pkg):
     # every parser guards against blank input
     n = 0
     for cls in ("Reaction", "KIDAReaction", "UMISTReaction", "LEEDSReaction", "UCLCHEMReaction", "KROMEReaction"):
-        fn = pkg.method(cls, "_parse_string")
+        fn = _parser(pkg, cls)
         file = pkg.cls(cls).file
         ctx.saw(file, f"{cls}._parse_string")
         fl = Flow(fn, file)
         st = [f for f in fl.facts if f.kind == "attrstore" and f.target in ("alpha", "reactants", "idxfromfile", "rate_string")]
         ok = bool(st) and all(any(_blank_guard(simp(g), p) for g, p in f.guards) for f in st)
         n += 1
+        # a test of the record this rule cannot read (a predicate, a regular expression) is not evidence that blank records are parsed
+        unread = sorted({show(simp(g))[:50] for f in st for g, _ in f.guards if not _blank_guard(simp(g), _) and any(x == ("param", "react_string") for x in walk(simp(g)))
+                         and any(isinstance(x, tuple) and x and x[0] in ("call", "meth") and not (x[0] == "meth" and x[2] in ("strip", "split")) for x in walk(simp(g)))})
+        if not ok and st and unread:
+            ctx.unrec("R1", f"{cls}._parse_string:blank-guard", (file, fn.lineno), "the record is tested in a way this rule cannot read: " + "; ".join(unread)[:160])
+            continue
         ctx.check(ok, "R1", f"{cls}._parse_string:blank-guard", (file, fn.lineno), "nothing is parsed from a blank / None record",
                   found="; ".join(sorted({show(simp(g))[:50] for f in st for g, _ in f.guards}))[:160])
     ctx.floor("R1", "parsers", n, 6)
@@ -233,7 +278,7 @@ def _r2(ctx, pkg):
     ctx.check(MARKERS <= lst, "R2", "Species.default_pseudoelements:markers", ("naunet/species.py", sp.node.lineno),
               "the database marker tokens CR, CRP, PHOTON, Photon, CRPHOT are pseudo-elements (filtered by _create_species)", expected=str(sorted(MARKERS)),
               found=str(sorted(MARKERS - lst)) + " missing")
-    fn = pkg.method("UCLCHEMReaction", "_parse_string")
+    fn = _parser(pkg, "UCLCHEMReaction")
     fl = Flow(fn, "naunet/reactions/uclchemreaction.py")
     # the keyword list is found by role: it is what the tokens are tested against (`tok not in <list>`) in the comprehensions
     # that create the reactants and the products -- as a filter of its own or as one conjunct of the filter
@@ -256,11 +301,12 @@ def _r2(ctx, pkg):
                 else:
                     out.append(e)
             return out
-        if v[0] == "binop" and v[1] == "Add":
+        if v[0] == "binop" and v[1] in ("Add", "BitOr"):          # list + list, set | set
             a, b = members(v[2]), members(v[3])
             return a + b if a is not None and b is not None else None
-        if v[0] == "call" and v[1] in (("global", "list"), ("global", "tuple"), ("global", "sorted")) and len(v[2]) == 1 and not v[3]:
-            return [("star", keys_of(v[2][0]))]
+        if v[0] == "call" and v[1] in (("global", "list"), ("global", "tuple"), ("global", "sorted"), ("global", "set"), ("global", "frozenset")) and len(v[2]) == 1 and not v[3]:
+            inner = members(v[2][0]) if v[2][0][0] in ("list", "tuple", "set", "binop") else None
+            return inner if inner is not None else [("star", keys_of(v[2][0]))]
         return None
 
     def keys_of(d):
@@ -278,6 +324,12 @@ def _r2(ctx, pkg):
                 ks = [c[2][1] for c in conjuncts(ifs) if c[0] == "cmp" and c[1] == ("NotIn",) and c[2][0] == bv]
                 good = bool(ks)
                 lists += ks
+                others = [c for c in conjuncts(ifs) if not (c[0] == "meth" and c[2] == "_create_species") and c not in [("cmp", ("NotIn",), (bv, k_)) for k_ in ks]]
+                if not good and others:
+                    # filtered, but not by `tok not in <list>`: which tokens are removed is not read here
+                    ctx.unrec("R2", f"UCLCHEM:{attr}:keyword filter", ("naunet/reactions/uclchemreaction.py", st[-1].line), "the tokens are filtered by a test this rule cannot read: "
+                              + "; ".join(show(c)[:60] for c in others)[:160])
+                    continue
             elif st:
                 ctx.unrec("R2", f"UCLCHEM:{attr}:keyword filter", ("naunet/reactions/uclchemreaction.py", st[-1].line), "the list is not built by a comprehension this rule can read")
                 continue
@@ -291,7 +343,7 @@ def _r2(ctx, pkg):
         ctx.check(ok, "R2", "UCLCHEM:kwlist", ("naunet/reactions/uclchemreaction.py", fn.lineno), "the keyword list is every key of reactant2type plus the filler NAN",
                   found="; ".join(show(simp(k))[:100] for k in lists) or "missing")
     # KROME: reactants/products appended only when _create_species(value) is truthy
-    kfn = pkg.method("KROMEReaction", "_parse_string")
+    kfn = _parser(pkg, "KROMEReaction")
     kfl = Flow(kfn, "naunet/reactions/kromereaction.py")
     # every append whose receiver is self.reactants / self.products -- named directly or through a local that stands for one of the
     # two (`side = self.reactants if key == "r" else self.products`)
@@ -364,72 +416,180 @@ def _destructurings(fn, fl, min_targets=5):
     return out
 
 
+class _Record:
+    """Positions in a separator-split record (`<line>.split(sep)`, possibly cut to its first N fields) of the values read from it,
+    whatever the way it is taken apart: starred destructuring, direct indexing, slices (of slices, negative bounds counted from the
+    end of a record of `n` fields), a dict of field names zipped with it, the fields listed one by one."""
+    NONE = ("const", None)
+
+    def __init__(self, n):
+        self.n = n
+        self.from_end = False       # some position was counted from the end of the record
+        self.star = None            # the starred target of a destructuring, when one is used
+
+    @staticmethod
+    def split(v):
+        """(<line>.split(sep) IR, number of leading fields kept | None) when v is the split record"""
+        from ..valueflow import strip_transparent
+        v = strip_transparent(simp(v))
+        b0 = match(("sub", V("sp"), ("slice", _Record.NONE, ("const", V("n")), _Record.NONE)), v)
+        sp, total = (strip_transparent(b0["sp"]), b0["n"]) if b0 and isinstance(b0["n"], int) and b0["n"] >= 0 else (v, None)
+        if sp[0] == "meth" and sp[2] == "split" and len(sp) == 5:
+            return sp, total
+        return None
+
+    @staticmethod
+    def _int(x):
+        """-> (True, int | None) for a constant integer / absent bound"""
+        if x == _Record.NONE:
+            return True, None
+        if x[0] == "const" and isinstance(x[1], int) and not isinstance(x[1], bool):
+            return True, x[1]
+        if x[0] == "unop" and x[1] == "USub" and x[2][0] == "const" and isinstance(x[2][1], int) and not isinstance(x[2][1], bool):
+            return True, -x[2][1]
+        return False, None
+
+    @staticmethod
+    def keyed(v):
+        """`dict(zip(<literal names>, <record>))[<name>]` is <record>[<position of the name>]"""
+        from ..valueflow import strip_transparent
+        if v[0] == "sub" and v[2][0] == "const":
+            d = strip_transparent(simp(v[1]))
+            if d[0] == "call" and d[1] == ("global", "dict") and len(d[2]) == 1 and not d[3]:
+                z = strip_transparent(d[2][0])
+                if z[0] == "call" and z[1] == ("global", "zip") and len(z[2]) == 2 and not z[3] and z[2][0][0] in ("tuple", "list") \
+                        and all(e[0] == "const" for e in z[2][0][1]):
+                    names = [e[1] for e in z[2][0][1]]
+                    if names.count(v[2][1]) == 1:
+                        return ("sub", z[2][1], ("const", names.index(v[2][1])))
+        return v
+
+    def run(self, v, depth=0):
+        """(record value, first field, last field + 1) of a run of consecutive fields, or None"""
+        from ..valueflow import strip_transparent
+        v = strip_transparent(simp(v))
+        if depth > 6:
+            return None
+        r = self.split(v)
+        if r:
+            return v, 0, r[1] if r[1] is not None else self.n
+        if v[0] == "item" and isinstance(v[2], tuple) and v[2][0] == "star" and self.split(v[1]):
+            # the starred part of `a, b, *rest, y, z = record`: what the named targets before and after it leave
+            r = self.split(v[1])
+            width = r[1] if r[1] is not None else self.n
+            self.star, self.from_end = v[2], True
+            return strip_transparent(simp(v[1])), v[2][1], width - (v[2][2] - v[2][1] - 1)
+        if v[0] in ("list", "tuple") and v[1] and not any(e[0] == "star" for e in v[1]):
+            fs = [self.field(_unwrap(e)[0]) for e in v[1]]
+            if all(fs) and len({f_[0] for f_ in fs}) == 1 and [f_[1] for f_ in fs] == list(range(fs[0][1], fs[0][1] + len(fs))):
+                return fs[0][0], fs[0][1], fs[0][1] + len(fs)
+            return None
+        if v[0] == "sub" and v[2][0] == "slice" and v[2][3] == self.NONE:
+            (ol, lo), (oh, hi) = self._int(v[2][1]), self._int(v[2][2])
+            if not (ol and oh):
+                return None
+            if v[1][0] in ("list", "tuple"):
+                return self.run((v[1][0], v[1][1][slice(lo, hi)]), depth + 1)
+            base = self.run(v[1], depth + 1)
+            if base is None:
+                return None
+            length = base[2] - base[1]
+            if (lo is not None and lo < 0) or (hi is not None and hi < 0):
+                self.from_end = True
+            a_, b_, _ = slice(lo, hi).indices(max(length, 0))
+            return base[0], base[1] + a_, base[1] + max(a_, b_)
+        return None
+
+    def field(self, v):
+        """(record value, position) of one field, or None"""
+        v = self.keyed(simp(v))
+        k = x = None
+        if v[0] == "item" and isinstance(v[2], int):
+            x, k = v[1], v[2]
+        elif v[0] == "sub":
+            ok, k = self._int(v[2])
+            x = v[1] if ok and k is not None else None
+        if x is None:
+            return None
+        base = self.run(x)
+        if base is None:
+            return None
+        if k < 0:
+            self.from_end = True
+        p = base[1] + k if k >= 0 else base[2] + k
+        return (base[0], p) if base[1] <= p < base[2] else None
+
+
 def _split_formats(ctx, pkg):
+    """The separator-split formats by the POSITION in the split record each value is read from (_Record), whatever the way the record
+    is taken apart: one starred destructuring (`idx, code, *rps, _, a, .. = line.split(":")[:14]`), direct indexing / slicing of the
+    record (`fields[9]`, `fields[2:4]`, `rec[-5:]`), a namedtuple over the fields (read as the plain tuple, pymodel.folded)."""
     for cls, lay in LAYOUT.items():
         file = pkg.cls(cls).file
-        fn = pkg.method(cls, "_parse_string")
+        fn = _parser(pkg, cls)
         fl = Flow(fn, file)
         n = lay["n"]
-        # the destructuring
-        dest = [(a, v) for a, v in _destructurings(fn, fl, 3) if any(isinstance(e, ast.Starred) for e in a.targets[0].elts)]
-        if len(dest) != 1:
-            ctx.unrec("R3", f"{cls}:destructuring", (file, fn.lineno), f"expected one starred destructuring of the split record, found {len(dest)}")
+        R_ = _Record(n)
+        record, scalar = R_.split, R_.field
+
+        def block(v):
+            r = R_.run(v)
+            return r if r is None or R_.split(v) is None else None          # the whole record is not a run of species fields
+        pos = _positions(fl, set(lay["fields"]))
+        seen = {}          # attribute -> (record value, position) | (record value, lo, hi, star)
+        for attr in lay["fields"]:
+            f = pos.get(attr)
+            if f is not None:
+                v, wraps = _unwrap(simp(f.value))
+                seen[attr] = (scalar(v), wraps, f, v)
+        for attr in ("reactants", "products"):
+            st = [f for f in fl.facts if f.kind == "attrstore" and f.target == attr and f.extra.get("obj") == SELF]
+            m = as_map(simp(st[-1].value)) if st else None
+            seen[attr] = (block(m[2]) if m else None, None, st[-1] if st else None, m[2] if m else None)
+        recs = {x[0][0] for x in seen.values() if x[0]}
+        if len(recs) != 1:
+            ctx.unrec("R3", f"{cls}:record", (file, fn.lineno), f"cannot identify the one split record the attributes are read from (found {len(recs)}): "
+                      + "; ".join(show(r)[:60] for r in sorted(recs, key=repr))[:200])
             continue
-        d, dv = dest[0]
-        elts = d.targets[0].elts
-        star = [i for i, e in enumerate(elts) if isinstance(e, ast.Starred)][0]
-        fixed = len(elts) - 1
-        src = show(dv)
-        # the record is <line>.split(sep), possibly cut to its first N fields
-        b0 = match(("sub", V("sp"), ("slice", ("const", None), ("const", V("n")), ("const", None))), dv)
-        sp = b0["sp"] if b0 else dv
-        total = b0["n"] if b0 and isinstance(b0["n"], int) else None
-        sep_ok = sp[0] == "meth" and sp[2] == "split" and sp[3] == (("const", lay["sep"]),) and not sp[4]
-        starlen = (total if total is not None else n) - fixed
-        ctx.check(sep_ok, "R3", f"{cls}:separator", (file, d.lineno), f"records are split at '{lay['sep']}'", found=src[-40:])
+        rec = recs.pop()
+        sp, total = record(rec)
+        src = show(rec)
+        star, from_end = R_.star, R_.from_end
+        sep_ok = sp[3] == (("const", lay["sep"]),) and not sp[4]
+        ctx.check(sep_ok, "R3", f"{cls}:separator", (file, fn.lineno), f"records are split at '{lay['sep']}'", found=src[-40:])
         if cls == "UMISTReaction":
-            ctx.check(total == n, "R3", f"{cls}:field-count", (file, d.lineno), f"the first {n} fields of a record are decoded", expected=f"[:{n}]", found=src[-12:])
-        want_star = lay["products"][1] - lay["reactants"][0]
-        ctx.check(starlen == want_star, "R3", f"{cls}:arity", (file, d.lineno),
-                  f"{fixed} named fields + {want_star} species fields = {n} fields of the format", expected=f"{n - want_star} named targets", found=f"{fixed} named targets")
-        # species slices
-        base0 = star
+            # positions counted from the end (the targets after a starred one) are right only when the record has exactly n fields
+            if star or from_end or total is not None:
+                ctx.check(total == n, "R3", f"{cls}:field-count", (file, fn.lineno), f"the first {n} fields of a record are decoded", expected=f"[:{n}]", found=src[-12:])
+            else:
+                ctx.ok("R3", f"{cls}:field-count", (file, fn.lineno), "every field is read by its position from the start of the record")
+        width = total if total is not None else n
+        if star:
+            fixed = star[2] - 1
+            want_star = lay["products"][1] - lay["reactants"][0]
+            ctx.check(width - fixed == want_star, "R3", f"{cls}:arity", (file, fn.lineno),
+                      f"{fixed} named fields + {want_star} species fields = {n} fields of the format", expected=f"{n - want_star} named targets", found=f"{fixed} named targets")
         for attr in ("reactants", "products"):
             lo, hi = lay[attr]
-            st = [f for f in fl.facts if f.kind == "attrstore" and f.target == attr]
-            ok = None
-            found = ""
-            if st:
-                m = as_map(simp(st[-1].value))
-                if m:
-                    base = m[2]
-                    found = show(base)[-60:]
-                    b = match(("sub", ("item", V("s"), V("star")), ("slice", V("lo"), V("hi"), ("const", None))), base)
-                    if b and isinstance(b["star"], tuple) and b["star"][0] == "star" and b["lo"][0] == "const" and b["hi"][0] == "const":
-                        l = b["lo"][1] if b["lo"][1] is not None else 0
-                        h = b["hi"][1]
-                        ok = (l + base0, (h or 0) + base0) == (lo, hi)
-            if ok is None:
-                ctx.unrec("R3", f"{cls}:{attr}:slice", (file, st[-1].line if st else fn.lineno), f"cannot see which fields of the record the {attr} are read from: {found or 'no store'}")
+            got, _, f, base = seen[attr]
+            where = (file, f.line if f is not None else fn.lineno)
+            if got is None or got[0] != rec:
+                ctx.unrec("R3", f"{cls}:{attr}:slice", where, f"cannot see which fields of the record the {attr} are read from: {show(base)[-60:] if base else 'no store'}")
             else:
-                ctx.check(ok, "R3", f"{cls}:{attr}:slice", (file, st[-1].line if st else fn.lineno),
-                          f"{attr} are fields {lo}..{hi - 1} of the record", expected=f"fields[{lo}:{hi}]", found=found)
-        # numeric fields
-        pos = _positions(fl, set(lay["fields"]))
+                ctx.check(got[1:3] == (lo, hi), "R3", f"{cls}:{attr}:slice", where, f"{attr} are fields {lo}..{hi - 1} of the record", expected=f"fields[{lo}:{hi}]",
+                          found=f"fields[{got[1]}:{got[2]}]  ({show(base)[-50:]})")
         for attr, (p, conv) in lay["fields"].items():
-            f = pos.get(attr)
-            if f is None:
-                ctx.bad("R5", f"{cls}:{attr}", (file, fn.lineno), f"self.{attr} is never assigned from the record")
+            if attr not in seen:
+                if any(isinstance(c, ast.Call) and isinstance(c.func, ast.Name) and c.func.id in ("setattr", "vars") for c in ast.walk(fn)):
+                    ctx.unrec("R5", f"{cls}:{attr}", (file, fn.lineno), f"no plain store into self.{attr}; attributes are set through setattr with a name this rule cannot read")
+                else:
+                    ctx.bad("R5", f"{cls}:{attr}", (file, fn.lineno), f"self.{attr} is never assigned from the record")
                 continue
-            v, wraps = _unwrap(simp(f.value))
-            k = v[2] if v[0] == "item" and isinstance(v[2], int) and v[1] == dv else None
-            if v[0] == "sub" and v[1] == dv and v[2][0] == "const" and isinstance(v[2][1], int):
-                k = v[2][1]                      # the record indexed directly
-            if k is not None and k < 0:
-                k = n + k
-            if k is None:
+            got, wraps, f, v = seen[attr]
+            if got is None or got[0] != rec:
                 ctx.unrec("R5", f"{cls}:{attr}", (file, f.line), f"cannot see which field of the record self.{attr} is read from: {show(v)[:80]}")
                 continue
+            k = got[1]
             ctx.check(k == p and (conv is None or conv in wraps), "R5", f"{cls}:{attr}", (file, f.line),
                       f"self.{attr} = {conv or ''}(field {p})", expected=f"field {p} through {conv}", found=f"field {k} through {wraps}")
 
@@ -437,58 +597,79 @@ def _split_formats(ctx, pkg):
 # ------------------------------------------------------------------ KIDA
 
 def _kida(ctx, pkg):
+    """The KIDA record by the COLUMNS each value is cut from, whatever the way the line is cut (line[:rlen] / line[rlen:rlen+plen] /
+    line[rlen+plen:], or head, tail = line[:90], line[90:] and head[:34] / head[34:], ...): slices of slices are composed and
+    arithmetic on constants folded (_fold_ir), then the constant bounds are compared with the published layout."""
     cls = "KIDAReaction"
     file = pkg.cls(cls).file
-    fn = pkg.method(cls, "_parse_string")
+    fn = _parser(pkg, cls)
     fl = Flow(fn, file)
     line = ("meth", ("param", "react_string"), "strip", (), ())
-    # block widths by role: reactants are split from line[:RL], products from line[RL:RL+PL]
-    rl = pl = None
-    for f in fl.facts:
-        if f.kind == "attrstore" and f.target in ("reactants", "products"):
-            m0 = as_map(simp(f.value))
-            b0 = match(("meth", ("sub", line, ("slice", V("lo"), V("hi"), ("const", None))), "split", (), ()), m0[2]) if m0 else None
-            if b0 and f.target == "reactants" and b0["lo"] == ("const", None) and b0["hi"][0] == "const":
-                rl = b0["hi"][1]
-            if b0 and f.target == "products" and b0["hi"][0] == "binop" and b0["hi"][1] == "Add" and b0["hi"][3][0] == "const":
-                pl = b0["hi"][3][1]
-    if rl is None or pl is None:
-        ctx.unrec("R4", "KIDA:widths", (file, fn.lineno), "cannot see the column blocks the reactants / products are split from (expected line[:RL].split(), line[RL:RL+PL].split())")
-        return
-    ctx.check(rl == 3 * 11 + 1 and pl == 5 * 11 + 1, "R4", "KIDA:widths", (file, fn.lineno),
-              "reactant block = 3 names of 11 columns + 1, product block = 5 names of 11 columns + 1 (as naunet's own KIDA writer lays them out)",
-              expected="rlen = 34, plen = 56", found=f"rlen = {rl}, plen = {pl}")
-    # the writer
+    NONE = ("const", None)
+
+    def block(v):
+        """(lo, hi | None) when v is <line>[lo:hi].split() with constant bounds, else None"""
+        b0 = match(("meth", ("sub", line, ("slice", V("lo"), V("hi"), NONE)), "split", (), ()), v)
+        if not b0:
+            return None
+        lo, hi = b0["lo"], b0["hi"]
+        if lo[0] != "const" or hi[0] != "const" or not all(x[1] is None or (isinstance(x[1], int) and x[1] >= 0) for x in (lo, hi)):
+            return None
+        return (lo[1] or 0, hi[1])
+    cols = {}
+    for attr in ("reactants", "products"):
+        st = [f for f in fl.facts if f.kind == "attrstore" and f.target == attr and f.extra.get("obj") == SELF]
+        m = as_map(simp(st[-1].value)) if st else None
+        if not m:
+            ctx.unrec("R4", f"KIDA:{attr}:columns", (file, st[-1].line if st else fn.lineno), f"the {attr} are not built by a comprehension over a slice of the line")
+            continue
+        base = _fold_ir(m[2])
+        blk = block(base)
+        if blk is None or blk[1] is None:
+            ctx.unrec("R4", f"KIDA:{attr}:columns", (file, st[-1].line), f"cannot see the constant column block the {attr} are split from (expected <line>[a:b].split()): {show(base)[:90]}")
+            continue
+        cols[attr] = (blk, st[-1].line, show(base)[:90])
+    if len(cols) == 2:
+        (rlo, rhi), (plo, phi_) = cols["reactants"][0], cols["products"][0]
+        rl, pl = rhi - rlo, phi_ - plo
+        ctx.check(rl == 3 * 11 + 1 and pl == 5 * 11 + 1, "R4", "KIDA:widths", (file, fn.lineno),
+                  "reactant block = 3 names of 11 columns + 1, product block = 5 names of 11 columns + 1 (as naunet's own KIDA writer lays them out)",
+                  expected="rlen = 34, plen = 56", found=f"rlen = {rl}, plen = {pl}")
+        for attr, want in (("reactants", (0, rhi)), ("products", (rhi, rhi + pl))):
+            blk, ln, found = cols[attr]
+            ctx.check(blk == want, "R4", f"KIDA:{attr}:columns", (file, ln),
+                      f"{attr} are the blank-separated names in columns {'1-34' if attr == 'reactants' else '35-90'} (the blocks are contiguous from column 1)",
+                      expected=f"line[{want[0]}:{want[1]}].split()", found=found)
+    # the writer: the padded name lists it lays out, read from the values (whatever method of Reaction builds them): a call
+    # _fill_list(<names formatted to a fixed width>, n, ..) -- f"{x:<11}" or x.ljust(11)
     w = pkg.method("Reaction", "__format__")
-    # the writer may live in __format__ itself or in a helper it dispatches to: search the class
-    wsrc = ast.unparse(pkg.cls("Reaction").node)
-    fills = re.findall(r"_fill_list\(\[f'\{(\w+):<11\}' for \1 in \w+\], (\d), \w+\)", wsrc)
+    fills = set()
+    for mname in pkg.cls("Reaction").methods:
+        if mname != "__format__" and "_fill_list" not in ast.unparse(pkg.cls("Reaction").methods[mname]):
+            continue
+        wfl = Flow(pkg.expanded("Reaction", mname), R)
+        vals = [v for lst in wfl.assigns.values() for v, *_ in lst] + [f.value for f in wfl.facts if f.value is not None]
+        for v in vals:
+            for x in walk(simp(v)):
+                if isinstance(x, tuple) and len(x) == 4 and x[0] == "call" and x[1] == ("global", "_fill_list") and len(x[2]) >= 2 and x[2][1][0] == "const":
+                    m = as_map(x[2][0])
+                    body = m[1] if m else None
+                    width = None
+                    if body is not None and body[0] == "fstr" and len(body[1]) == 1 and body[1][0][0] == "fmt" and isinstance(body[1][0][2], str):
+                        mm = re.fullmatch(r"<(\d+)s?", body[1][0][2])
+                        width = int(mm.group(1)) if mm else None
+                    elif body is not None and body[0] == "meth" and body[2] == "ljust" and len(body[3]) >= 1 and body[3][0][0] == "const":
+                        width = body[3][0][1]
+                    if width == 11:
+                        fills.add((m[2], x[2][1][1]))
     if not fills:
         ctx.unrec("R4", "KIDA:writer-widths", (R, w.lineno), "cannot find the KIDA writer's padded name lists (_fill_list([f'{x:<11}' for x in ..], n, ..))")
     else:
-        ctx.check(sorted(n_ for _, n_ in fills) == ["3", "5"], "R4", "KIDA:writer-widths", (R, w.lineno),
-                  "the KIDA writer pads 3 reactant and 5 product names to 11 columns each", found=str(fills))
-    RL, PL = ("const", rl), ("const", pl)
-    want = {
-        "reactants": ("slice", ("const", None), RL, ("const", None)),
-        "products": ("slice", RL, ("binop", "Add", RL, PL), ("const", None)),
-    }
-    for attr, sl in want.items():
-        st = [f for f in fl.facts if f.kind == "attrstore" and f.target == attr]
-        ok = False
-        found = ""
-        if st:
-            m = as_map(simp(st[-1].value))
-            if m:
-                base = m[2]
-                found = show(base)[:90]
-                ok = base == ("meth", ("sub", line, sl), "split", (), ())
-        if not found:
-            ctx.unrec("R4", f"KIDA:{attr}:columns", (file, st[-1].line if st else fn.lineno), f"the {attr} are not built by a comprehension over a slice of the line")
-            continue
-        ctx.check(ok, "R4", f"KIDA:{attr}:columns", (file, st[-1].line if st else fn.lineno),
-                  f"{attr} are the blank-separated names in columns {'1-34' if attr == 'reactants' else '35-90'}", found=found)
-    tail = ("meth", ("sub", line, ("slice", ("binop", "Add", RL, PL), ("const", None), ("const", None))), "split", (), ())
+        ctx.check(sorted(n_ for _, n_ in fills) == [3, 5], "R4", "KIDA:writer-widths", (R, w.lineno),
+                  "the KIDA writer pads 3 reactant and 5 product names to 11 columns each", found=str(sorted(n_ for _, n_ in fills)))
+    if len(cols) != 2:
+        return
+    end = cols["products"][0][1]           # the numeric tail is the text after the product block
     pos = _positions(fl, set(KIDA_TAIL))
     for attr, (p, conv) in KIDA_TAIL.items():
         f = pos.get(attr)
@@ -501,13 +682,19 @@ def _kida(ctx, pkg):
         if v[0] != "item" or not isinstance(v[2], int) or not any(isinstance(x, tuple) and len(x) == 5 and x[0] == "meth" and x[2] == "split" for x in walk(v[1])):
             ctx.unrec("R5", f"KIDA:{attr}", (file, f.line), f"cannot see which token of the record self.{attr} is read from: {show(v)[:80]}")
             continue
-        ok = v[1] == tail and v[2] in (p, p - 13) and conv in wraps
-        ctx.check(ok, "R5", f"KIDA:{attr}", (file, f.line), f"self.{attr} = {conv}(token {p} of the text after column 90)",
-                  expected=f"{conv}(line[90:].split()[{p}])", found=show(simp(f.value))[:100])
-    dest = [a for a, v in _destructurings(fn, fl, 6) if v == tail]
-    others = [a for a, v in _destructurings(fn, fl, 6) if v != tail]
-    if not dest:
-        ctx.unrec("R3", "KIDA:arity", (file, others[0].lineno if others else fn.lineno), "no destructuring of the blank-separated text after column 90 into named fields")
+        blk = block(_fold_ir(v[1]))
+        ok = blk == (end, None) and v[2] in (p, p - 13) and conv in wraps
+        ctx.check(ok, "R5", f"KIDA:{attr}", (file, f.line), f"self.{attr} = {conv}(token {p} of the text after column {end})",
+                  expected=f"{conv}(line[{end}:].split()[{p}])", found=show(_fold_ir(simp(f.value)))[:100])
+    ds = [(a, block(_fold_ir(v))) for a, v in _destructurings(fn, fl, 6)]
+    dest = [a for a, blk in ds if blk == (end, None)]
+    others = [a for a, blk in ds if blk != (end, None)]
+    decided = [o for o in ctx.obs if o.rule == "R5" and o.key.startswith("KIDA:")]
+    if not dest and not others and len(decided) == len(KIDA_TAIL) and all(o.outcome == "DISCHARGED" for o in decided) \
+            and all(_unwrap(simp(pos[a_].value))[0][0] == "sub" or (_unwrap(simp(pos[a_].value))[0][0] == "item" and _unwrap(simp(pos[a_].value))[0][2] >= 0) for a_ in KIDA_TAIL):
+        ctx.ok("R3", "KIDA:arity", (file, fn.lineno), "every token of the numeric tail is read by its position from the start of the tail (no destructuring whose arity could be wrong)")
+    elif not dest:
+        ctx.unrec("R3", "KIDA:arity", (file, others[0].lineno if others else fn.lineno), f"no destructuring of the blank-separated text after column {end} into named fields")
     else:
         ctx.check(len(dest) == 1 and len(dest[0].targets[0].elts) == 13 and not any(isinstance(e, ast.Starred) for e in dest[0].targets[0].elts), "R3", "KIDA:arity", (file, fn.lineno),
                   "the numeric tail of a KIDA record has exactly 13 tokens", found=str(len(dest[0].targets[0].elts)) if dest else "none")
@@ -516,56 +703,16 @@ def _kida(ctx, pkg):
 # ------------------------------------------------------------------ Leeds
 
 def _leeds(ctx, pkg):
+    """The Leeds record by the VALUES the parser computes, whatever the way the line is cut (one loop over parallel label / width
+    lists advancing a cursor, a class-level (label, width) table with itertools.accumulate offsets, a dict of named clips read back,
+    a table-driven setattr for the float columns ...): on the folded parser (static loops over the literal tables unrolled, cursor
+    arithmetic on constants folded) every `self.<attr> = conv(line[a:b])` is compared with the published columns."""
     cls = "LEEDSReaction"
     file = pkg.cls(cls).file
     fn = pkg.method(cls, "_parse_string")
-    fl = Flow(fn, file)
-
-    def lit(x):
-        x = simp(x)
-        return [e[1] for e in x[1]] if x[0] == "list" and all(e[0] == "const" for e in x[1]) else None
-    # by role: the cursor is the one variable advanced (+=) inside a loop over zip(<labels>, <widths>)
-    inc = [f for f in fl.facts if f.kind == "augassign" and len(f.loops) == 1 and simp(f.loops[0].iter)[0] == "call" and simp(f.loops[0].iter)[1] == ("global", "zip")]
-    labels = widths = None
-    if inc:
-        z = simp(inc[0].loops[0].iter)
-        if len(z[2]) == 2:
-            labels, widths = lit(z[2][0]), lit(z[2][1])
-    # independent of the idiom: the columns each attribute is decoded from, computed by unrolling the loop over the (literal) tables
-    by_columns = _leeds_columns(ctx, pkg, fn, file)
-    if not inc or labels is None or widths is None:
-        # not the cursor idiom (one loop over zip(labels, widths) advancing a column cursor)
-        if not by_columns:
-            ctx.unrec("R4", "Leeds:layout", (file, fn.lineno), "the Leeds record is neither cut by the reviewed cursor idiom (for label, width in zip(..): clip = line[cursor:cursor+width]; "
-                                                              "cursor += width) nor by a loop over literal column tables that can be unrolled")
-        _leeds_prefix(ctx, fl, file)
-        return
-    ctx.check(labels == LEEDS_LABELS, "R3", "Leeds:labels", (file, fn.lineno), "the nine fields of a Leeds record, in file order", expected=str(LEEDS_LABELS), found=str(labels))
-    ctx.check(widths == LEEDS_WIDTHS and sum(widths or []) == 125, "R4", "Leeds:widths", (file, fn.lineno),
-              "column widths 5,30,50,8,9,10,5,5,3 (125 columns)", expected=str(LEEDS_WIDTHS), found=str(widths))
-    # cursor: clip = line[stidx : stidx + len]; stidx += len once per field, unconditionally; starts at 0
-    init = fl.assigns.get(inc[0].target, []) if inc else []
-    loopvar_ok = False
-    if len(inc) == 1 and len(inc[0].loops) == 1:
-        lp = inc[0].loops[0]
-        it = simp(lp.iter)
-        # guards of polarity False come from the `else: raise` of the label chain (unknown labels never reach the increment)
-        loopvar_ok = it[0] == "call" and it[1] == ("global", "zip") and len(it[2]) == 2 and \
-            not [g for g in inc[0].guards if g[1] is True and "react_string.strip()" not in show(simp(g[0]))]
-    ctx.check(len(inc) == 1 and inc[0].op == "Add" and loopvar_ok and len(init) >= 1 and simp(init[0][0]) == ("const", 0), "R4", "Leeds:cursor", (file, inc[0].line if inc else fn.lineno),
-              "the column cursor starts at 0 and advances by the field width exactly once per field", found=f"{len(inc)} increments, init {[show(x[0]) for x in init]}")
-    # label -> attribute
-    seen = {}
-    for f in fl.facts:
-        if f.kind == "attrstore" and f.extra.get("obj") == SELF and f.loops:
-            for g, pol in f.guards:
-                g = simp(g)
-                if pol and g[0] == "cmp" and g[1] == ("Eq",) and g[2][1][0] == "const" and g[2][0][0] == "elem":
-                    seen.setdefault(g[2][1][1], set()).add(f.target)
-    for lab, attr in LEEDS_ATTR.items():
-        got = seen.get(lab, set()) - {"reaction_type"}
-        ctx.check(got == {attr}, "R5", f"Leeds:{lab}->{attr}", (file, fn.lineno), f"field `{lab}` feeds self.{attr}", expected=attr, found=str(sorted(got)))
-    _leeds_prefix(ctx, fl, file)
+    folded = _parser(pkg, cls)
+    _leeds_columns(ctx, Flow(folded, file), fn, file)
+    _leeds_prefix(ctx, Flow(folded, file), file)
 
 
 def _leeds_prefix(ctx, fl, file):
@@ -579,91 +726,41 @@ def _leeds_prefix(ctx, fl, file):
     ctx.floor("R5", "Leeds species stores", n, 2)
 
 
-def _static_pairs(fn, loop):
-    """literal ((label, width), ...) a for-loop iterates over: a literal sequence of pairs, zip of two literal sequences, or locals
-    bound exactly once in the function to such literals; None otherwise"""
-    once = {}
-    for n in ast.walk(fn):
-        if isinstance(n, ast.Name) and isinstance(n.ctx, (ast.Store, ast.Del)):
-            once[n.id] = once.get(n.id, 0) + 1
-    bound = {a.targets[0].id: a.value for a in ast.walk(fn) if isinstance(a, ast.Assign) and len(a.targets) == 1 and isinstance(a.targets[0], ast.Name)
-             and once.get(a.targets[0].id) == 1 and a.lineno < loop.lineno}
-    mutated = {c.func.value.id for c in ast.walk(fn) if isinstance(c, ast.Call) and isinstance(c.func, ast.Attribute) and isinstance(c.func.value, ast.Name)
-               and c.func.attr in ("append", "extend", "insert", "remove", "pop", "clear", "sort", "reverse")}
-    mutated |= {t.value.id for a in ast.walk(fn) if isinstance(a, (ast.Assign, ast.AugAssign)) for t in (a.targets if isinstance(a, ast.Assign) else [a.target])
-                if isinstance(t, ast.Subscript) and isinstance(t.value, ast.Name)}
+def _fold_ir(v):
+    """integer arithmetic on constants folded and slices of slices composed (non-negative constant bounds):
+    s[a:b][c:d] is s[a+c : min(b, a+d)] -- `head = line[:90]; head[34:]` is line[34:90], `line[a:][:n]` is line[a:a+n]"""
+    if not isinstance(v, tuple) or not v:
+        return v
+    v = tuple(_fold_ir(x) if isinstance(x, tuple) else x for x in v)
+    if v[0] == "binop" and v[1] in ("Add", "Sub", "Mult") and v[2][0] == "const" and v[3][0] == "const" and isinstance(v[2][1], int) and isinstance(v[3][1], int) \
+            and not isinstance(v[2][1], bool) and not isinstance(v[3][1], bool):
+        return ("const", {"Add": v[2][1] + v[3][1], "Sub": v[2][1] - v[3][1], "Mult": v[2][1] * v[3][1]}[v[1]])
+    NONE = ("const", None)
 
-    def lit(e):
-        if isinstance(e, ast.Name) and e.id in bound and e.id not in mutated:
-            e = bound[e.id]
-        if isinstance(e, (ast.List, ast.Tuple)) and e.elts and not any(isinstance(x, ast.Starred) for x in e.elts):
-            return e
-        return None
-    it = loop.iter
-    if isinstance(it, ast.Call) and isinstance(it.func, ast.Name) and it.func.id == "zip" and len(it.args) == 2 and not it.keywords:
-        a, b = lit(it.args[0]), lit(it.args[1])
-        if a is None or b is None or len(a.elts) != len(b.elts):
-            return None
-        rows = [ast.Tuple(elts=[x, y], ctx=ast.Load()) for x, y in zip(a.elts, b.elts)]
-    else:
-        a = lit(it)
-        if a is None:
-            return None
-        rows = list(a.elts)
-    if not all(isinstance(r, ast.Tuple) and len(r.elts) == 2 and all(isinstance(x, ast.Constant) for x in r.elts) for r in rows):
-        return None
-    return ast.Tuple(elts=rows, ctx=ast.Load())
+    def bound(x):
+        """-> (True, int | None) for a constant non-negative / absent bound, else (False, None)"""
+        if x == NONE:
+            return True, None
+        if x[0] == "const" and isinstance(x[1], int) and not isinstance(x[1], bool) and x[1] >= 0:
+            return True, x[1]
+        return False, None
+    if v[0] == "sub" and v[2][0] == "slice" and v[2][3] == NONE and v[1][0] == "sub" and v[1][2][0] == "slice" and v[1][2][3] == NONE:
+        (oa, a_), (ob, b_), (oc, c_), (od, d_) = bound(v[1][2][1]), bound(v[1][2][2]), bound(v[2][1]), bound(v[2][2])
+        if oa and ob and oc and od:
+            lo = (a_ or 0) + (c_ or 0)
+            his = [h for h in (b_, None if d_ is None else (a_ or 0) + d_) if h is not None]
+            hi = min(his) if his else None
+            return ("sub", v[1][1], ("slice", ("const", lo) if lo or v[1][2][1] != NONE or v[2][1] != NONE else NONE, ("const", hi), NONE))
+    return v
 
 
-def _leeds_columns(ctx, pkg, fn, file):
-    """The record columns each attribute of a Leeds reaction is decoded from (DESIGN Appendix C), whatever the way the line is cut:
-    the loop over the literal (label, width) table(s) is unrolled (sa.normalize), the cursor arithmetic folded, a dict of named
-    clips read back, and every `self.<attr> = conv(line[a:b]...)` compared with the published columns.  -> True when the layout
-    could be decided this way (obligations R4 'Leeds:<attr>:columns' emitted), False when the function has no such loop."""
-    import copy
-    from ..normalize import _unroll_one
-    new = copy.deepcopy(fn)
-    done = 0
-
-    def rewrite(stmts):
-        nonlocal done
-        out = []
-        for st in stmts:
-            for fld in ("body", "orelse", "finalbody"):
-                b = getattr(st, fld, None)
-                if isinstance(b, list) and b and isinstance(b[0], ast.stmt):
-                    setattr(st, fld, rewrite(b))
-            if isinstance(st, ast.For) and isinstance(st.target, ast.Tuple) and len(st.target.elts) == 2:
-                seq = _static_pairs(new, st)
-                un = _unroll_one(st, seq) if seq is not None else None
-                if un is not None:
-                    for u in un:
-                        ast.fix_missing_locations(u)
-                    out.extend(un)
-                    done += 1
-                    continue
-            out.append(st)
-        return out
-    new.body = rewrite(new.body)
-    if done != 1:
-        return False
-    fl = Flow(new, file)
+def _leeds_columns(ctx, fl, fn, file):
+    """The record columns each attribute of a Leeds reaction is decoded from (DESIGN Appendix C): `fl` is the flow of the folded
+    parser; cursor arithmetic is folded, a dict of named clips read back, and every `self.<attr> = conv(line[a:b]...)` compared
+    with the published columns (obligations R4 'Leeds:<attr>:columns')."""
     LINE = ("param", "react_string")
 
-    def fold(v):
-        if not isinstance(v, tuple) or not v:
-            return v
-        v = tuple(fold(x) if isinstance(x, tuple) else x for x in v)
-        if v[0] == "binop" and v[1] in ("Add", "Sub", "Mult") and v[2][0] == "const" and v[3][0] == "const" and isinstance(v[2][1], int) and isinstance(v[3][1], int) \
-                and not isinstance(v[2][1], bool) and not isinstance(v[3][1], bool):
-            return ("const", {"Add": v[2][1] + v[3][1], "Sub": v[2][1] - v[3][1], "Mult": v[2][1] * v[3][1]}[v[1]])
-        # s[a:][:n] is s[a:a+n]
-        NONE = ("const", None)
-        if v[0] == "sub" and v[2][0] == "slice" and v[2][1] in (NONE, ("const", 0)) and v[2][3] == NONE and v[2][2][0] == "const" and isinstance(v[2][2][1], int) and v[2][2][1] >= 0 \
-                and v[1][0] == "sub" and v[1][2][0] == "slice" and v[1][2][2] == NONE and v[1][2][3] == NONE and v[1][2][1][0] == "const" and isinstance(v[1][2][1][1], int) and v[1][2][1][1] >= 0:
-            a_ = v[1][2][1][1]
-            return ("sub", v[1][1], ("slice", ("const", a_), ("const", a_ + v[2][2][1]), NONE))
-        return v
+    fold = _fold_ir
 
     def live(f):
         """False when a guard of the fact compares two different constants (an arm of the unrolled label chain that belongs to another label)"""
@@ -717,16 +814,17 @@ def _leeds_columns(ctx, pkg, fn, file):
             ctx.unrec("R4", key, (file, f.line), f"the slice bounds of self.{attr} are not constants after unrolling: {show(cut)[:100]}")
             continue
         n += 1
+        if attr == "rtype":
+            a += 1          # the first character of the type field is not part of the code (clip[1:], composed into the slice by _fold_ir)
         okc = got == (a, b)
-        # conversion: numeric attributes through int / float of the clip (the type code drops its first character)
+        # conversion: numeric attributes through int / float of the clip
         shape = True
         if attr in conv:
-            inner = ("sub", cut, ("slice", ("const", 1), ("const", None), ("const", None))) if attr == "rtype" else cut
-            shape = v == ("call", ("global", conv[attr]), (inner,), ())
+            shape = v == ("call", ("global", conv[attr]), (cut,), ())
         ctx.check(okc and shape, "R4", key, (file, f.line), f"self.{attr} is decoded from columns {a + 1}-{b} of the 125-column record" + ("" if shape else f" through {conv.get(attr)}()"),
-                  expected=f"{conv.get(attr, '')}(line[{a}:{b}]{'[1:]' if attr == 'rtype' else ''})", found=show(v)[:120])
-    ctx.floor("R4", "Leeds attributes with decided columns", n, 9, (file, fn.lineno))
-    return True
+                  expected=f"{conv.get(attr, '')}(line[{a}:{b}])", found=show(v)[:120])
+    if not any(o.rule == "R4" and o.key.startswith("Leeds:") and o.outcome in ("UNRECOGNISED", "VIOLATION") for o in ctx.obs):
+        ctx.floor("R4", "Leeds attributes with decided columns", n, 9, (file, fn.lineno))
 
 
 # ------------------------------------------------------------------ R6
@@ -743,7 +841,7 @@ def _r6(ctx, rm, pkg):
                       f"code {code!r} denotes reaction type {ref.get(code)}", expected=str(ref.get(code)), found=f"{table.get(code, ('absent',))[0]} = {got}")
     ctx.floor("R6", "code table entries", n, 44)
     # UCLCHEM: unmarked reactions default to two-body
-    fn = pkg.method("UCLCHEMReaction", "_parse_string")
+    fn = _parser(pkg, "UCLCHEMReaction")
     UCF = "naunet/reactions/uclchemreaction.py"
     fl = Flow(fn, UCF)
     st = [f for f in fl.facts if f.kind == "attrstore" and f.target == "reaction_type" and f.extra.get("obj") == SELF]
@@ -753,14 +851,9 @@ def _r6(ctx, rm, pkg):
         ctx.unrec("R6", "UCLCHEM:default type", (UCF, fn.lineno), "the reaction type is not looked up as self.reactant2type.get(<marker token>, <default>)")
     else:
         tok, dflt = v[3]
-        # the marker is the second token of the record: item 1 of the split line, or element 1 of its starred head
-        pos = None
-        if tok[0] == "sub" and tok[2][0] == "const" and isinstance(tok[2][1], int) and tok[1][0] == "item" and isinstance(tok[1][2], tuple) and tok[1][2][0] == "star":
-            pos = tok[1][2][1] + tok[2][1] if tok[2][1] >= 0 else None
-        elif tok[0] == "item" and isinstance(tok[2], int) and tok[2] >= 0:
-            pos = tok[2]
-        elif tok[0] == "sub" and tok[2][0] == "const" and isinstance(tok[2][1], int) and tok[2][1] >= 0 and tok[1][0] == "meth" and tok[1][2] == "split":
-            pos = tok[2][1]
+        # the marker is the second token of the record, however the record is taken apart (_Record)
+        got = _Record(LAYOUT["UCLCHEMReaction"]["n"]).field(tok)
+        pos = got[1] if got else None
         if pos is None:
             ctx.unrec("R6", "UCLCHEM:default type", (UCF, st[0].line), f"cannot see which token of the record is the marker: {show(tok)[:80]}")
         else:
@@ -836,4 +929,137 @@ MUTANTS += [
 ]
 BENIGN += [
     {"name": "leeds-clip-by-length", "file": L, "old": "clip = react_string[stidx : stidx + len]", "new": "clip = react_string[stidx:][:len]"},
+]
+
+# ---- wave 2: the same layouts through tables, index arithmetic, records and helper pipelines
+_UM_OLD = '            idx, code, *rps, _, a, b, c, lt, ut = react_string.split(":")[:14]\n'
+_UM_NUM = ('            self.alpha = float(a)\n            self.beta = float(b)\n            self.gamma = float(c)\n            self.temp_min = float(lt)\n'
+           '            self.temp_max = float(ut)\n            self.idxfromfile = int(idx)\n            self.code = code\n')
+
+
+def _um_indexed(alpha=9, products="4:8"):
+    return [{"file": U, "old": _UM_OLD, "new": '            fields = react_string.split(":")\n            rps = fields[2:8]\n'},
+            {"file": U, "old": "for r in rps[0:2]", "new": "for r in fields[2:4]"}, {"file": U, "old": "for p in rps[2:6]", "new": f"for p in fields[{products}]"},
+            {"file": U, "old": _UM_NUM, "new": f'            self.alpha = float(fields[{alpha}])\n            self.beta = float(fields[10])\n            self.gamma = float(fields[11])\n'
+             '            self.temp_min = float(fields[12])\n            self.temp_max = float(fields[13])\n            self.idxfromfile = int(fields[0])\n            self.code = fields[1]\n'}]
+
+
+def _um_record(order="idx code r1 r2 p1 p2 p3 p4 nte alpha beta gamma tmin tmax"):
+    return [{"file": U, "old": "class UMISTReaction(Reaction):\n", "new": f'from collections import namedtuple\n_Fields = namedtuple("_Fields", "{order}")\n\n\nclass UMISTReaction(Reaction):\n'},
+            {"file": U, "old": _UM_OLD, "new": '            rec = _Fields(*react_string.split(":")[:14])\n            rps = rec[2:8]\n'},
+            {"file": U, "old": _UM_NUM, "new": '            self.alpha = float(rec.alpha)\n            self.beta = float(rec.beta)\n            self.gamma = float(rec.gamma)\n'
+             '            self.temp_min = float(rec.tmin)\n            self.temp_max = float(rec.tmax)\n            self.idxfromfile = int(rec.idx)\n            self.code = rec.code\n'}]
+
+
+_KI_OLD_W = "            rlen = 34  # length of the string containing reactants\n            plen = 56  # length of the string containing products\n"
+_KI_TAIL = "            a, b, c, _, _, _, itype, lt, ut, form, idx, _, _ = react_string[\n                rlen + plen :\n            ].split()\n"
+
+
+def _ki_headtail(rend=34, plen=56):
+    return [{"file": K, "old": _KI_OLD_W, "new": f"            rend = {rend}\n            pend = rend + {plen}\n            head, tail = react_string[:pend], react_string[pend:]\n"},
+            {"file": K, "old": "for r in react_string[:rlen].split()", "new": "for r in head[:rend].split()"},
+            {"file": K, "old": "for p in react_string[rlen : rlen + plen].split()", "new": "for p in head[rend:].split()"},
+            {"file": K, "old": _KI_TAIL, "new": "            a, b, c, _, _, _, itype, lt, ut, form, idx, _, _ = tail.split()\n"}]
+
+
+_LE_LISTS = ('        list_label = [\n            "idx",\n            "reac",\n            "prod",\n            "a",\n            "b",\n            "c",\n            "lt",\n            "ht",\n            "type",\n        ]\n'
+             '        list_strlen = [\n            5,\n            30,\n            50,\n            8,\n            9,\n            10,\n            5,\n            5,\n            3,\n        ]\n')
+_LE_LOOP = "            stidx = 0\n            for label, len in zip(list_label, list_strlen):\n                clip = react_string[stidx : stidx + len]\n"
+
+
+def _le_table(widths=(5, 30, 50, 8, 9, 10, 5, 5, 3), clip="react_string[edge - width : edge]"):
+    cols = ", ".join(f'("{l}", {w})' for l, w in zip(LEEDS_LABELS, widths))
+    return [{"file": L, "old": "from enum import IntEnum\n", "new": "from enum import IntEnum\nfrom itertools import accumulate\n"},
+            {"file": L, "old": "    def _parse_string(self, react_string) -> None:\n        self.source = \"leeds\"\n", "new": f"    _columns = ({cols})\n\n    def _parse_string(self, react_string) -> None:\n        self.source = \"leeds\"\n"},
+            {"file": L, "old": _LE_LISTS, "new": ""},
+            {"file": L, "old": _LE_LOOP, "new": "            edges = accumulate(width for _, width in self._columns)\n            for (label, width), edge in zip(self._columns, edges):\n                clip = " + clip + "\n"},
+            {"file": L, "old": "\n                stidx += len\n", "new": ""}]
+
+
+_UC_OLD = ("            reactants = [r for r in rpspec[0:3] if r not in kwlist]\n            products = [p for p in rpspec[3:7] if p not in kwlist]\n\n"
+           "            self.reactants = [\n                self._create_species(r) for r in reactants if self._create_species(r)\n            ]\n"
+           "            self.products = [\n                self._create_species(p) for p in products if self._create_species(p)\n            ]\n")
+
+
+def _uc_pipeline(kw='[*self.reactant2type.keys(), "NAN"]', second="rpspec[3:7]"):
+    return [{"file": UC, "old": _UC_OLD, "new": f"            self.reactants = self._named_species(rpspec[0:3])\n            self.products = self._named_species({second})\n\n"
+             f"    def _named_species(self, columns):\n        kwlist = {kw}\n        names = [name for name in columns if name not in kwlist]\n"
+             "        return [self._create_species(name) for name in names if self._create_species(name)]\n"}]
+
+
+_KR_SIDE = ('                elif key in self._species_columns:\n                    if self._create_species(value):\n'
+            '                        target = getattr(self, self._species_columns[key])\n                        target.append(self._create_species(value))\n')
+_KR_CLS = '    def _parse_string(self, react_string) -> None:\n        self.source = "krome"\n'
+MUTANTS += [
+    {"name": "umist-indexed-alpha-from-field-8", "edits": _um_indexed(alpha=8), "rules": ["R5"]},
+    {"name": "umist-indexed-products-short", "edits": _um_indexed(products="4:7"), "rules": ["R3"]},
+    {"name": "umist-namedtuple-beta-gamma-swapped", "edits": _um_record("idx code r1 r2 p1 p2 p3 p4 nte alpha gamma beta tmin tmax"), "rules": ["R5"]},
+    {"name": "kida-head-tail-product-block-short", "edits": _ki_headtail(plen=55), "rules": ["R4"]},
+    {"name": "leeds-class-table-accumulate-wrong-width", "edits": _le_table(widths=(5, 30, 50, 8, 9, 10, 5, 5, 4)), "rules": ["R4"]},
+    {"name": "leeds-class-table-clip-from-edge", "edits": _le_table(clip="react_string[edge : edge + width]"), "rules": ["R4"]},
+    {"name": "uclchem-pipeline-kwlist-lacks-nan", "edits": _uc_pipeline(kw="list(self.reactant2type)"), "rules": ["R2"]},
+    {"name": "uclchem-pipeline-products-short", "edits": _uc_pipeline(second="rpspec[3:6]"), "rules": ["R3"]},
+    {"name": "krome-species-table-getattr-unfiltered", "edits": [
+        {"file": KR, "old": _KR_CLS, "new": '    _species_columns = {"r": "reactants", "p": "products"}\n\n' + _KR_CLS},
+        {"file": KR, "old": _KR_RP, "new": _KR_SIDE.replace("                    if self._create_species(value):\n", "                    if value:\n")}], "rules": ["R2"]},
+]
+BENIGN += [
+    {"name": "umist-record-indexed", "edits": _um_indexed()},
+    {"name": "umist-record-namedtuple", "edits": _um_record()},
+    {"name": "kida-head-tail-cut", "edits": _ki_headtail()},
+    {"name": "leeds-class-table-accumulate-edges", "edits": _le_table()},
+    {"name": "uclchem-species-pipeline-helper", "edits": _uc_pipeline()},
+    {"name": "krome-species-table-getattr", "edits": [
+        {"file": KR, "old": _KR_CLS, "new": '    _species_columns = {"r": "reactants", "p": "products"}\n\n' + _KR_CLS},
+        {"file": KR, "old": _KR_RP, "new": _KR_SIDE}]},
+]
+_FACT_OLD = "    react_string = initializer.preprocessing(react_string)\n    if react_string and react_string.strip():\n        return initializer(react_string=react_string)\n    return None\n"
+_UM_NAMES = '            names = ("idx", "code", "r1", "r2", "p1", "p2", "p3", "p4", "nte", "a", "b", "c", "lt", "ut")\n'
+
+
+def _um_dict(names=_UM_NAMES):
+    return [{"file": U, "old": _UM_OLD, "new": names + '            rec = dict(zip(names, react_string.split(":")))\n            rps = [rec[k] for k in ("r1", "r2", "p1", "p2", "p3", "p4")]\n'},
+            {"file": U, "old": _UM_NUM, "new": '            self.alpha = float(rec["a"])\n            self.beta = float(rec["b"])\n            self.gamma = float(rec["c"])\n            self.temp_min = float(rec["lt"])\n'
+             '            self.temp_max = float(rec["ut"])\n            self.idxfromfile = int(rec["idx"])\n            self.code = rec["code"]\n'}]
+
+
+MUTANTS += [
+    {"name": "factory-guard-clause-raw-truthiness", "file": NET, "old": _FACT_OLD, "new": "    line = initializer.preprocessing(react_string)\n    if not line:\n        return None\n    return initializer(line)\n", "rules": ["R1"]},
+    {"name": "umist-dict-record-names-shifted", "edits": _um_dict(_UM_NAMES.replace('"nte", "a", "b", "c"', '"a", "b", "c", "nte"')), "rules": ["R5"]},
+    {"name": "krome-prefix-table-lacks-slashes", "edits": [
+        {"file": KR, "old": '        if line.startswith(("#", "//")):\n', "new": '        if line.startswith(cls._comment_marks):\n'},
+        {"file": KR, "old": _KR_CLS, "new": '    _comment_marks = ("#",)\n\n' + _KR_CLS}], "rules": ["R1"]},
+]
+BENIGN += [
+    {"name": "factory-guard-clause-positional", "file": NET, "old": _FACT_OLD, "new": "    line = initializer.preprocessing(react_string)\n    if not line or not line.strip():\n        return None\n    return initializer(line)\n"},
+    {"name": "umist-record-dict-of-names", "edits": _um_dict()},
+    {"name": "krome-prefix-table-class-constant", "edits": [
+        {"file": KR, "old": '        if line.startswith(("#", "//")):\n', "new": '        if line.startswith(cls._comment_marks):\n'},
+        {"file": KR, "old": _KR_CLS, "new": '    _comment_marks = ("#", "//")\n\n' + _KR_CLS}]},
+]
+_UC_REC = '            *rpspec, a, b, c, lt, ut = react_string.split(",")\n'
+
+
+def _le_slices(a_hi=93):
+    tab = ('    _fields = {"idx": slice(0, 5), "reac": slice(5, 35), "prod": slice(35, 85), "a": slice(85, ' + str(a_hi) + '), "b": slice(93, 102), "c": slice(102, 112), '
+           '"lt": slice(112, 117), "ht": slice(117, 122), "type": slice(122, 125)}\n\n')
+    return [{"file": L, "old": "    def _parse_string(self, react_string) -> None:\n        self.source = \"leeds\"\n", "new": tab + "    def _parse_string(self, react_string) -> None:\n        self.source = \"leeds\"\n"},
+            {"file": L, "old": _LE_LISTS, "new": ""},
+            {"file": L, "old": _LE_LOOP, "new": "            for label, span in self._fields.items():\n                clip = react_string[span]\n"},
+            {"file": L, "old": "\n                stidx += len\n", "new": ""}]
+
+
+def _ki_indexed(itype=6):
+    return [{"file": K, "old": _KI_TAIL, "new": f"            tail = react_string[rlen + plen :].split()\n            a, b, c, itype, lt, ut, form, idx = tail[0], tail[1], tail[2], tail[{itype}], tail[7], tail[8], tail[9], tail[10]\n"}]
+
+
+MUTANTS += [
+    {"name": "uclchem-tail-slice-one-short", "file": UC, "old": _UC_REC, "new": '            rec = react_string.split(",")\n            rpspec = rec[:-5]\n            a, b, c, lt, ut = rec[-6:-1]\n', "rules": ["R5"]},
+    {"name": "leeds-slice-table-alpha-too-wide", "edits": _le_slices(a_hi=94), "rules": ["R4"]},
+    {"name": "kida-tail-indexed-itype-from-token-5", "edits": _ki_indexed(itype=5), "rules": ["R5"]},
+]
+BENIGN += [
+    {"name": "uclchem-record-negative-slices", "file": UC, "old": _UC_REC, "new": '            rec = react_string.split(",")\n            rpspec = rec[:-5]\n            a, b, c, lt, ut = rec[-5:]\n'},
+    {"name": "leeds-class-table-of-slices", "edits": _le_slices()},
+    {"name": "kida-tail-indexed", "edits": _ki_indexed()},
 ]
